@@ -32,6 +32,8 @@ PathTab ==
    pdup2 |-> [text |-> "/d/{a}/{b}/{a}/{b}", segs |-> <<Lit("d"), Par("a"), Par("b"), Par("a"), Par("b")>>],
    pqs  |-> [text |-> "/qs/{id}",     segs |-> <<Lit("qs"), Par("id")>>],
    prl  |-> [text |-> "/rl",          segs |-> <<Lit("rl")>>],
+   pr1  |-> [text |-> "/r1",          segs |-> <<Lit("r1")>>],
+   pr2  |-> [text |-> "/r2",          segs |-> <<Lit("r2")>>],
    pdm  |-> [text |-> "/dm",          segs |-> <<Lit("dm")>>],
    pdr  |-> [text |-> "/dr",          segs |-> <<Lit("dr")>>],
    prb  |-> [text |-> "/rb",          segs |-> <<Lit("rb")>>],
@@ -68,6 +70,8 @@ BodyTab ==
    d1     |-> [text |-> "text one",              kind |-> "text",   root |-> "",       rtype |-> "",        uses |-> {}, inh |-> {}, enums |-> {}, keys |-> {}, props |-> <<>>],
    d3     |-> [text |-> "line one\nline two",    kind |-> "text",   root |-> "",       rtype |-> "",        uses |-> {}, inh |-> {}, enums |-> {}, keys |-> {}, props |-> <<>>],
    d2     |-> [text |-> "text two",              kind |-> "text",   root |-> "",       rtype |-> "",        uses |-> {}, inh |-> {}, enums |-> {}, keys |-> {}, props |-> <<>>],
+   rx2    |-> [text |-> "/[a-z]{4}/",            kind |-> "regex",  root |-> "",       rtype |-> "",        uses |-> {}, inh |-> {}, enums |-> {}, keys |-> {}, props |-> <<>>],
+   objr7  |-> [text |-> "{\"id\": @t7}",         kind |-> "schema", root |-> "object", rtype |-> "object",  uses |-> {"@t7"}, inh |-> {}, enums |-> {}, keys |-> {"id"}, props |-> <<[key |-> "id", tt |-> "reference", ty |-> "@t7"]>>],
    rx     |-> [text |-> "/ab/",                  kind |-> "regex",  root |-> "",       rtype |-> "",        uses |-> {}, inh |-> {}, enums |-> {}, keys |-> {}, props |-> <<>>]]
 BodyIds == DOMAIN BodyTab
 
